@@ -103,6 +103,12 @@ func Configs(thorough bool) []Config {
 		add(sc, 1, 3, false)
 		add(sc, 0, 2, false)
 	}
+	if thorough {
+		// the variant in which every clock tick wakes every waiting worker for free (a strictly larger bound-k set)
+		for _, sc := range []string{"two-ns", "same-ns"} {
+			add(sc, 0, 2, true)
+		}
+	}
 	for i := range out {
 		c := &out[i]
 		c.ID = fmt.Sprintf("%s/g%d-%d/off%d-%d", c.Scenario, c.GraceA, c.GraceB, c.OffA, c.OffB)
@@ -162,7 +168,7 @@ func Jobs(thorough bool) []Job {
 		n := 1
 		switch {
 		case b >= 3:
-			n = 6
+			n = 8
 		case b == 2:
 			n = 3
 		}
@@ -975,7 +981,7 @@ func Run(r *lib.Report) {
 			out := fmt.Sprintf("%s/%03d.json", outDir, i)
 			_ = os.Remove(out)
 			cmd := exec.Command(os.Args[0], "--worker", "C19", fmt.Sprint(i), out)
-			cmd.Dir = "/repo"
+			cmd.Dir, _ = os.Getwd()
 			logf, _ := os.Create(fmt.Sprintf("%s/%03d.log", outDir, i))
 			cmd.Stdout, cmd.Stderr = logf, logf
 			err := cmd.Run()
